@@ -553,6 +553,17 @@ func checkFifoShape(c *Ctx, r *Report, fQueue, fDepth *types.Var) {
 	}
 	// single-element slice literal [b]
 	singleton := func(v ssa.Value, elem ssa.Value) bool {
+		// the pre-sized spelling: append(make([]T, 0, n), elem)
+		if call, ok := v.(*ssa.Call); ok {
+			if b, ok := call.Call.Value.(*ssa.Builtin); ok && b.Name() == "append" && len(call.Call.Args) == 2 {
+				if mk, ok := call.Call.Args[0].(*ssa.MakeSlice); ok {
+					if k, ok := constInt(mk.Len); ok && k == 0 {
+						inner := variadicElems(call.Call.Args[1])
+						return len(inner) == 2 && inner[0] == elem
+					}
+				}
+			}
+		}
 		els := variadicElems(v)
 		// variadicElems returns stored elements + v itself
 		return len(els) == 2 && els[0] == elem
